@@ -1,12 +1,12 @@
 #!/usr/bin/env python3
-"""Fills seeded/<id>/meta.json 'detection' from the try_mutant runs under /tmp/mutrun_<id>/ and prints
-the table for DESIGN.md 11.7."""
+"""Fills seeded/<id>/meta.json 'detection' from the try_mutant runs under /tmp/mutrun_<id>/ and rewrites
+the table of DESIGN.md 11.7 (between the header row and the first blank line after it, or the @@TABLE@@ marker)."""
 import json, os, re, glob
 rows = []
 for d in sorted(glob.glob("/verif/seeded/*")):
     mid = os.path.basename(d)
     meta = json.load(open(os.path.join(d, "meta.json")))
-    det = {}
+    det = dict(meta.get("detection") or {})
     for log in sorted(glob.glob("/tmp/mutrun_%s/C*.log" % mid)):
         prop = os.path.basename(log)[:-4]
         txt = open(log).read()
@@ -15,11 +15,20 @@ for d in sorted(glob.glob("/verif/seeded/*")):
             continue
         vl = re.findall(r"^VIOLATION property=\S+ replay=(\S+)( no-failing-input-found)?", txt, re.M)
         obl = [os.path.basename(p)[len(prop) + 1:-5] for p, _ in vl]
+        native = "native search" if "failing input (native search" in txt else ("native replay of the counterexample" if any(not s for _, s in vl) else "none")
         det[prop] = dict(check="./check %s --tier quick (VERIF_REPO=<mutated worktree>)" % prop, obligations=int(m.group(1)), violations=int(m.group(4)), undecided=int(m.group(5)),
-                         caught=int(m.group(4)) > 0, failed_obligations=obl[:8], native_replay_reproduced=sum(1 for _, s in vl if not s))
+                         caught=int(m.group(4)) > 0, failed_obligations=obl[:8], with_failing_input=sum(1 for _, s in vl if not s), failing_input_from=native)
     meta["detection"] = det
     json.dump(meta, open(os.path.join(d, "meta.json"), "w"), indent=1)
-    for prop, r in det.items():
-        rows.append((mid, meta["property"], prop, "caught" if r["caught"] else ("undecided" if r["undecided"] else "MISSED"), r["violations"], (r["failed_obligations"] or [""])[0][:70]))
-for r in rows:
-    print("| %s | %s | %s | %s | %d | %s |" % r)
+    for prop, r in sorted(det.items()):
+        res = ("caught (%d)" % r["violations"]) if r["caught"] else ("undecided" if r["undecided"] else "MISSED")
+        rows.append("| %s | %s | `./check %s` | %s | `%s` | %s |" % (mid, meta["change"][:110].replace("|", "/"), prop, res, (r["failed_obligations"] or ["-"])[0][:80], r.get("failing_input_from", "-") if r["caught"] else "-"))
+table = "\n".join(rows)
+p = "/verif/DESIGN.md"
+s = open(p).read()
+if "@@TABLE@@" in s:
+    s = s.replace("@@TABLE@@", "<!-- table:begin -->\n" + table + "\n<!-- table:end -->")
+else:
+    s = re.sub(r"<!-- table:begin -->.*?<!-- table:end -->", lambda m: "<!-- table:begin -->\n" + table + "\n<!-- table:end -->", s, flags=re.S)
+open(p, "w").write(s)
+print(table)
